@@ -1,6 +1,8 @@
 \* Termination: the evaluation as a step machine; liveness under weak
-\* fairness, no state constraint, plus the variant.
-CONSTANTS U = "small" MaxLen = 2 EmitFrom = 1 Shard = 0 Perms = FALSE Families = 1 Mode = "live"
+\* fairness, no state constraint, plus the variant.  Tables: the reduced cycle
+\* family (cycles of length 1..4 through exact and wildcard links) and all
+\* one-entry tables.
+CONSTANTS U = "small" MaxLen = 1 EmitFrom = 1 Shard = 0 Perms = FALSE Families = 1 Mode = "live"
 SPECIFICATION Spec
 PROPERTIES Terminates VariantGrows
 INVARIANTS VariantBounded MachineAgrees
